@@ -10,7 +10,7 @@ THEOREMS = [
     "C12.left_sibling_eq", "C12.right_sibling_eq", "C12.node_path_eq", "C12.root_eq",
     "C12.is_root_iff", "C12.is_leaf_iff", "C12.depth_eq", "C12.max_depth_eq",
     "C12.go_to_eq", "C12.go_to_simple_path", "C12.go_to_other_tree_rej",
-    "C12.diameter_eq",
+    "C12.diameter_eq", "C12.diameter_longest_path",
 ]
 PROOF_IMPORTS = ["BigtreeProofs.Properties.C12"]
 RULE = ("every derived property on every node ('props' lines) and go_to on every ordered pair of nodes ('goto' lines) "
@@ -413,9 +413,25 @@ def shrink(case):
 
 
 NOT_READY = False
-TECHNIQUE = ("Lean 4 proof: each derived query, written the way the Python is written (parent walks with fuel, the filtered "
-             "pre-order, the nonlocal-diameter recursion, the index arithmetic of go_to), is proved equal to its definition "
-             "on addresses for every tree and node; the model is tied to the code by differential testing on every node / "
-             "ordered pair of exhaustively enumerated small trees plus random large ones.")
-LEVEL_TEXT = ""
-LEVEL_NOTE = ""
+TECHNIQUE = ("Lean 4 proof (fuel / structural induction on addresses and rose trees: each query as written = its definition) "
+             "+ correspondence check of every property on every node and go_to on every ordered pair against the real classes")
+LEVEL_TEXT = ("Proof. Lean 4 theorems (C12.*) show, for every tree and every node (a node = root tree + address), that the models "
+              "written the way basenode.py / binarynode.py are written equal their first-principles definitions: ancestors = proper "
+              "prefixes of the address, nearest first; descendants = pre-order of the subtree minus the node; leaves = its childless "
+              "nodes; siblings / left_sibling / right_sibling = the other / neighbouring children of the parent; node_path = all "
+              "prefixes root first; root = the empty address; is_root, is_leaf (BinaryNode: both slots empty); depth = |address| + 1 = "
+              "1 + number of ancestors; max_depth = height of the whole tree = largest node depth; go_to (the self_path / node_path / "
+              "common-node / min-index computation) = up to the lowest common ancestor then down, it starts and ends at the given nodes, "
+              "repeats no node, every step is a parent/child link and it has dist(a,b) edges; nodes of different trees are refused; "
+              "diameter (the nonlocal-maximum recursion with heapq.nlargest(2, ...), and the BinaryNode variant that skips empty slots) "
+              "= the maximum over the nodes of the subtree of the sum of the two largest child heights, and (diameter_longest_path) = the "
+              "largest number of edges between two nodes of the subtree, attained by some pair. The model is tied to /repo on every run "
+              "by differential testing: all 13 properties on every node and go_to on every ordered pair of all ordered trees with <=6 "
+              "(quick) / <=8 (thorough) nodes and all BinaryNode shapes with holes up to 5 / 6 nodes, random trees to 40 nodes, depth 10, "
+              "fan-out 8 (incl. wide nodes whose tallest children come last), go_to across two trees; a model-free oracle (parent-chain "
+              "walks, own DFS, BFS eccentricities for the diameter, explicit LCA for go_to) re-derives every value from the real objects.")
+LEVEL_NOTE = ("Trusted: Lean kernel, axioms <= {propext, Classical.choice, Quot.sound} (audited each run), the hand-written model's "
+              "correspondence to basenode.py / binarynode.py as established by the tie (not proved), CPython. Object identity is modelled "
+              "by addresses (root ids across trees); generators by the lists they yield; heapq.nlargest(2, l) by sorted(l, reverse=True)[:2]; "
+              "the None entries a BinaryNode reports in `siblings` for empty slots are dropped before comparison. ancestors / descendants / "
+              "leaves / siblings are compared as multisets by the tie (the theorems prove the exact order); node_path and go_to exactly.")
